@@ -6,6 +6,7 @@ import (
 	_ "github.com/jamespfennell/gtfs"
 	_ "github.com/jamespfennell/gtfs/extensions/nyctalerts"
 	_ "github.com/jamespfennell/gtfs/extensions/nycttrips"
+	_ "github.com/jamespfennell/gtfs/internal/verifh"
 	vr "github.com/jamespfennell/gtfs/internal/verifrt"
 	_ "github.com/jamespfennell/gtfs/journal"
 )
